@@ -28,9 +28,9 @@ EXHAUSTIVE = {"quick": True, "thorough": True}
 SOFT_LIMIT = {"quick": 240, "thorough": 1500}
 REQUIRED_FUNCS = ["sempler/utils.py:split_data"]
 REQUIRED_COUNTERS = {"quick": {"accepted": 20000, "float-sum-not-1": 300, "rejected-as-expected": 200, "tie-sizes": 300, "determinism-checked": 5000,
-                               "shuffle-checked": 1000, "rows-tracked": 500000},
+                               "shuffle-checked": 1000, "rows-tracked": 500000, "uniformity:calls": 20000, "uniformity:cells-judged": 500},
                      "thorough": {"accepted": 100000, "float-sum-not-1": 500, "rejected-as-expected": 200, "tie-sizes": 3000, "determinism-checked": 50000,
-                                  "shuffle-checked": 5000, "rows-tracked": 2000000}}
+                                  "shuffle-checked": 5000, "rows-tracked": 2000000, "uniformity:calls": 200000, "uniformity:cells-judged": 500}}
 SEEDS = {"quick": 3, "thorough": 24}
 
 
@@ -78,6 +78,10 @@ def gen(tier, seed, shard, nshards):
                 sizes = [n] + [int(rng.integers(0, 45)) for _ in range(envs - 1)]
                 yield "split", {"sizes": sizes, "m": m, "k": list(c), "d": int(1 + idx % 3), "n_seeds": SEEDS[tier], "form": idx % 4, "base": seed}
             idx += 1
+    # uniformity of the shuffle over seeds (a "random shuffle": every observation equally likely in every place)
+    for u, (n, ratios) in enumerate(((12, [0.5, 0.25, 0.25]), (7, [0.7, 0.2, 0.1]), (20, [0.1, 0.9]), (9, [1 / 3, 1 / 3, 1 / 3]), (30, [0.2, 0.3, 0.5]), (5, [0.4, 0.6]))):
+        if u % nshards == shard:
+            yield "uniformity", {"n": n, "ratios": ratios, "n_seeds": 4000 if tier == "quick" else 40000, "base": int(seed), "m": 0, "k": []}
     # ratio vectors that do not sum to 1
     b = 0
     for (m, c) in vecs[::3]:
@@ -107,8 +111,54 @@ def _ratios(m, k, form):
     return r
 
 
+def _judge_uniformity(U, family, case, rec):
+    from ..oracles import stats as S
+    n, ratios, ns = case["n"], case["ratios"], case["n_seeds"]
+    rec.case(family, case, True, key=("uniformity", n, tuple(ratios), case["base"]))
+    first = np.zeros((n, n), dtype=int)        # first[i, q]: observation i at place q of the concatenated folds
+    together = 0
+    sizes = None
+    data0 = np.arange(n, dtype=float).reshape(n, 1)
+    for t in range(ns):
+        rs = util.derive_seed("C17u", case["base"], n, t) % (2**32)
+        try:
+            folds = U.split_data([data0.copy()], list(ratios), random_state=rs)
+        except Exception as e:
+            rec.exception_violation("C17:exception-" + type(e).__name__, family, case, "split_data raised", e)
+            return
+        parts = [np.asarray(f[0])[:, 0].astype(int) for f in folds]
+        seq = np.concatenate(parts)
+        if len(seq) != n or sorted(seq.tolist()) != list(range(n)):
+            return          # conservation is judged by the 'split' family
+        sizes = [len(q) for q in parts]
+        first[seq, np.arange(n)] += 1
+        fold_of = np.repeat(np.arange(len(parts)), sizes)[np.argsort(seq)]
+        together += int(fold_of[0] == fold_of[1])
+    rec.count("uniformity:calls", ns)
+    worst = 1.0
+    for i in range(n):
+        for q in range(n):
+            b = S.binom_tail_bound(int(first[i, q]), ns, 1.0 / n)
+            worst = min(worst, b)
+            if b < S.DELTA / (n * n):
+                rec.violation("C17:shuffle-not-uniform", family, case,
+                              "over %d seeds observation %d of %d lands on place %d of the concatenated folds %d times (expected about %d; bound %.3g)"
+                              % (ns, i, n, q, int(first[i, q]), ns // n, b), fold_sizes=sizes)
+                return
+    p_same = sum(sz * (sz - 1) for sz in sizes) / float(n * (n - 1))
+    b = S.binom_tail_bound(together, ns, p_same) if 0 < p_same < 1 else 1.0
+    rec.count("uniformity:cells-judged", n * n + 1)
+    if b < S.DELTA:
+        rec.violation("C17:shuffle-not-uniform", family, case,
+                      "over %d seeds observations 0 and 1 land in the same fold %d times (expected about %d for a uniform shuffle; bound %.3g)"
+                      % (ns, together, int(ns * p_same), b), fold_sizes=sizes)
+
+
 def judge(family, case, rec):
     import sempler.utils as U
+    if family == "uniformity":
+        _judge_uniformity(U, family, case, rec)
+        return
     m, k = case["m"], case["k"]
     if family == "badsum":
         r = [ki / m for ki in k]
